@@ -199,13 +199,14 @@ ReturnToParent ==
          cached == {c \in once : c.fn = child.fn.id}
          popped == SubSeq(frames, 1, Len(frames) - 1)
          Resume == [popped EXCEPT ![Len(popped)] = Advance([parent EXCEPT !.phase = "walk"])]
-     IN IF f.once /\ cached # {} /\ ~Redef
+     IN \* the argument check comes first (repair of F16), then the memoized result of a run-once function
+        IF missing /\ ("F16" \notin Bugs \/ ~(f.once /\ cached # {} /\ ~Redef))
+        THEN /\ outcome' = Outc("bugerr") /\ frames' = <<>> /\ UNCHANGED <<val, log, toks, once>>
+        ELSE IF f.once /\ cached # {} /\ ~Redef
         THEN LET c == CHOOSE c \in cached : TRUE IN
              /\ UNCHANGED <<log, toks, once>>
              /\ IF c.fails THEN outcome' = [Outc("converr") EXCEPT !.errid = c.errid] /\ frames' = <<>> /\ UNCHANGED val
                 ELSE val' = WithOutputs(child.fn, f, c.outs) /\ frames' = Resume /\ UNCHANGED outcome
-        ELSE IF missing
-        THEN /\ outcome' = Outc("bugerr") /\ frames' = <<>> /\ UNCHANGED <<val, log, toks, once>>
         ELSE LET n0 == Len(toks)
                  outsT == [j \in DOMAIN f.out |-> n0 + j]
                  eid == Len(log) + 1
